@@ -1,7 +1,6 @@
 package harness
 
 import (
-	"compress/gzip"
 	"bufio"
 	"bytes"
 	"errors"
@@ -51,7 +50,8 @@ type c03Conn struct {
 type c03Plan struct {
 	WriteBuf  int       `json:"write_buffer_size"`
 	ReduceMem bool      `json:"reduce_memory_usage"`
-	Compress  bool      `json:"compress_handler,omitempty"` // C34: handlers run behind CompressHandler, clients accept gzip (compressed body streams)
+	Compress  bool      `json:"compress_handler,omitempty"` // handlers run behind CompressHandler and the clients accept AcceptEnc (compressed bodies and body streams)
+	AcceptEnc string    `json:"accept_encoding,omitempty"`
 	Conns     []c03Conn `json:"conns"`
 }
 
@@ -149,7 +149,10 @@ func genC03Req(e *Env, id string, streamy bool) c03Req {
 
 func scenC03(e *Env) func() {
 	streamy := e.Prop == "C34"
-	p := &c03Plan{WriteBuf: Pick(e, 4096, 4096, 512, 16384), ReduceMem: e.Chance(30), Compress: streamy && e.Chance(30)}
+	p := &c03Plan{WriteBuf: Pick(e, 4096, 4096, 512, 16384), ReduceMem: e.Chance(30), Compress: e.Chance(Pick(e, 30, 20)), AcceptEnc: Pick(e, "gzip", "gzip", "deflate", "br", "zstd", "gzip, deflate")}
+	if !streamy && !p.Compress {
+		p.AcceptEnc = ""
+	}
 	nconn := e.Range(1, 3)
 	var subs []simnet.Faults
 	for ci := 0; ci < nconn; ci++ {
@@ -410,7 +413,7 @@ func c03Run(e *Env, p *c03Plan, subs []simnet.Faults) {
 					hdr += "Connection: keep-alive\r\n"
 				}
 				if p.Compress {
-					hdr += "Accept-Encoding: gzip\r\n"
+					hdr += "Accept-Encoding: " + p.AcceptEnc + "\r\n"
 				}
 				reqs = append(reqs, []byte(fmt.Sprintf("%s /c3?id=%s %s\r\nHost: x\r\n%s\r\n%s", r.Method, r.ID, r.Proto, hdr, body)))
 			}
@@ -579,16 +582,18 @@ func c03Judge(e *Env, p *c03Plan, ci int, raw, sent []byte, aborted, closed bool
 			// decoded content of intact streams (and, below, the close accounting of every stream)
 			if m.fault == "" && (m.declared < 0 || m.declared == len(m.body)) && !noBodyFor(r.Method, m) && berr == nil && !aborted {
 				dec := body
-				if resp.Header.Get("Content-Encoding") == "gzip" {
-					zr, err := gzip.NewReader(bytes.NewReader(body))
-					if err == nil {
-						dec, err = io.ReadAll(zr)
+				if ce := resp.Header.Get("Content-Encoding"); ce != "" {
+					var err error
+					if ce == "deflate" {
+						dec, err = inflateAny(body)
+					} else {
+						dec, err = decodeBody(ce, body)
 					}
 					if err != nil {
-						e.Violation("body/compressed", "%s: the gzip body does not decode: %v", tag, err)
+						e.Violation("body/compressed", "%s: the %s body does not decode: %v", tag, ce, err)
 						return
 					}
-					e.Probe("compressed-stream")
+					e.Probe("compressed-" + ce)
 				}
 				if !bytes.Equal(dec, m.body) {
 					e.Violation("body/compressed", "%s: decoded body has %d bytes, the handler built %d (first difference at %d)", tag, len(dec), len(m.body), firstDiff(dec, m.body))
